@@ -188,6 +188,20 @@ int SimDisk::on_call(int method, const std::string& path)
         fault.role == role && fault.ordinal == ord)
     {
         fault.fired = true;
+        if (fault.persist && (fault.code & 0xff) == SQLITE_FULL)
+        {
+            // the disk stays full: nothing may grow until the API call returns
+            int64_t t = 0;
+            for (auto& kv : files)
+                t += (int64_t)kv.second->bytes.size();
+            quota_bytes = t;
+        }
+        return fault.code;
+    }
+    if (fault.armed && fault.fired && fault.persist && fault.method == method && fault.role == role &&
+        (fault.code & 0xff) != SQLITE_FULL)
+    {
+        ++fault.refired;
         return fault.code;
     }
     if (hook)
